@@ -844,7 +844,8 @@ Section Exec.
                   | Ok (w, st3) =>
                       match to_float (vv c), to_float (vv m), to_float (vv w) with
                       | Some fc, Some fm, Some fw =>
-                          let v := f_round_to_int (f_mul (f_div fc fm) fw) in
+                          (* a maximum of zero gives 0 (fix D48; before, the int conversion of Inf / NaN) *)
+                          let v := if f_is_zero fm then 0%Z else f_round_to_int (f_mul (f_div fc fm) fw) in
                           match ctxname with
                           | [] => xok (itoa v) st3
                           | _ => match set_priv st3 ctxname (CV (as_value (VInt v))) with
